@@ -733,6 +733,25 @@ ENTRIES += [
 ]
 
 ENTRIES += [
+    # ---------------------------------------------------------------- broken twins of the fourth behaviour-preserving round: each is an archived
+    # refactor (silent) plus one slip in the restyled code (must be caught)
+    M("R4-gae-attrgetter-targets-crossed", "C03", "C03", (RB, 'attrgetter("returns", "advantages"), self, (returns, advantages)', 'attrgetter("advantages", "returns"), self, (returns, advantages)'), base="C03-ref11"),
+    M("R4-replay-add-attrgetter-values-shifted", ["C05", "C06", "C07"], ["C05", "C06", "C07"], (RPB, '            "actions",\n            "rewards",\n            "dones",\n            "timeouts",\n        ]', '            "actions",\n            "dones",\n            "rewards",\n            "timeouts",\n        ]'), base="C11-ref12"),
+    M("R4-action-layer-table-unmaskable-head", "C16", "C16.3", (PA, "        MultiDiscrete: MultiDiscreteAction,\n", "        MultiDiscrete: partial(BoxAction, log_std_init=log_std_init),\n"), base="C16-ref12"),
+    M("R4-action-layer-table-entry-missing", "C16", "C16.3", (PA, "        MultiBinary: MultiBinaryAction,\n", ""), base="C16-ref12"),
+    M("R4-dict-flatten-helper-sample-order", "C14", "C14.8", ("lerax/space/dict.py", "in_space_order = (sample[key] for key in self.spaces)", "in_space_order = (sample[key] for key in sample)"), base="C18-ref12"),
+    M("R4-array-space-flat-size-rank", "C14", "C14.8", ("lerax/space/base_space.py", "math.prod(self.shape)", "len(self.shape)"), base="C14-ref10"),
+    M("R4-gym-callback-record-flags-crossed", ["C07", "C13"], ["C07.9", "C13.7"], ("lerax/compatibility/gym.py", "                terminal=jnp.asarray(terminated, dtype=bool),\n                truncated=jnp.asarray(truncated, dtype=bool),", "                terminal=jnp.asarray(truncated, dtype=bool),\n                truncated=jnp.asarray(terminated, dtype=bool),"), base="C01-ref12"),
+    M("R4-flat-batch-indices-one-axis", "C09", "C09", ("lerax/buffer/base_buffer.py", "        flat_self = self.flatten_axes(batch_axes)\n        return flat_self, flat_self.batch_indices(batch_size, key=key)", "        flat_self = self.flatten_axes(0)\n        return flat_self, flat_self.batch_indices(batch_size, key=key)"), base="C09-ref10"),
+    M("R4-train-carry-fields-crossed", "C09", "C09.4", (PPO, "        policy, opt_state, stats = self.train_batch(*carry, batch)\n        return TrainCarry(policy, opt_state), stats", "        policy, opt_state, stats = self.train_batch(*carry, batch)\n        return TrainCarry(opt_state, policy), stats"), base="C09-ref12"),
+    M("R4-polyak-map-arguments-crossed", "C10", "C10.5", (SAC, "tuple(map(partial(_polyak_average, tau), online, targets))", "tuple(map(partial(_polyak_average, tau), targets, online))"), base="C10-ref12"),
+    M("R4-sac-result-fields-declared-in-other-order", "C10", "C10.6", (SAC, "    qf1: SoftQNetwork\n    qf2: SoftQNetwork\n    q_opt_state: optax.OptState\n    log_alpha: Float[Array, \"\"]\n    alpha_opt_state: optax.OptState", "    qf1: SoftQNetwork\n    qf2: SoftQNetwork\n    q_opt_state: optax.OptState\n    alpha_opt_state: optax.OptState\n    log_alpha: Float[Array, \"\"]"), base="C10-ref11"),
+    M("R4-humanoid-size-table-block-dropped", "C02", "C02.4", ("lerax/env/mujoco/humanoid.py", "            (self.include_cvel_in_observation, cvel_size),\n", ""), base="C17-ref12"),
+    M("R4-while-carry-returns-key", "C19", "C19.5", ("lerax/benchmark/__init__.py", "    return carry.cumulative_reward", "    return carry.key"), base="C19-ref12"),
+    M("R4-command-axes-ranges-crossed", "C20", "C20.2", ("lerax/env/unitree/g1/locomotion.py", "            self.lin_vel_y_range,\n            self.ang_vel_yaw_range,\n        )", "            self.ang_vel_yaw_range,\n            self.lin_vel_y_range,\n        )"), base="C20-ref12"),
+]
+
+ENTRIES += [
     # ---------------------------------------------------------------- later additions
     M("C15-sac-bounds-swapped", "C15", "C15.3", (PS, "                high=self.action_space.high,\n                low=self.action_space.low,\n            )\n        else:", "                high=self.action_space.low,\n                low=self.action_space.high,\n            )\n        else:")),
     M("C13-flatten-wrong-size", "C13", "C13.5", (WTO, "shape=(int(jnp.asarray(self.env.observation_space.flat_size)),)", "shape=(int(jnp.asarray(self.env.action_space.flat_size)),)")),
